@@ -5,6 +5,8 @@ import DendroModel.Theory.C10Ext
 import DendroModel.Theory.C10Esc
 import DendroModel.Theory.C10Text
 import DendroModel.Theory.C10Kw
+import DendroModel.Theory.C10Bulk
+import DendroModel.Theory.C10Unl
 import DendroModel.Gen.C10Kernels
 /-! C10 — property theorems about the namespace state machine `DendroModel.C10.step` (the definitions the driver
 `drv_c10` runs).  `Aux.WInv w` is the invariant of a world: every namespace satisfies `Aux.Inv` (member list
@@ -203,12 +205,14 @@ theorem sort_stable (lab : Nat → String) (rev : Bool) (k : String) (l : List N
     (sortBy lab rev l).filter (fun t => lab t == k) = l.filter (fun t => lab t == k) :=
   sortBy_stable lab rev k l
 
-/-- `sort` / `reverse` as operations touch the member list only: index maps, memo, counter and flags are unchanged -/
+/-- `sort` (unless `list.sort` refuses it: two or more members, one without a label — see `sort_refused_spec`) / `reverse` as
+operations touch the member list only: index maps, memo, counter and flags are unchanged -/
 theorem sort_ops_spec (w : World) (n : Nat) (s : NS) (hs : w.nss[n]? = some s) (rev : Bool) :
-    step w (.sort n rev) = (w.setNs n { s with taxa := sortBy w.lab rev s.taxa }, .ok) ∧
+    (sortRefused w.lab s.taxa = false →
+      step w (.sort n rev) = (w.setNs n { s with taxa := sortBy w.lab rev s.taxa }, .ok)) ∧
     step w (.rev n) = (w.setNs n { s with taxa := s.taxa.reverse }, .ok) := by
   constructor
-  · rw [step_ns (n := n) rfl rfl, hs]; simp [stepNs]
+  · intro h; rw [step_ns (n := n) rfl rfl, hs]; simp [stepNs, h]
   · rw [step_ns (n := n) rfl rfl, hs]; simp [stepNs]
 
 example : sortBy (fun t => ["b", "a", "b", "a"].getD t "") true [0, 1, 2, 3] = [0, 2, 1, 3] := by decide
@@ -1357,17 +1361,24 @@ theorem sort_key_kinds (w : World) (s : NS) (k : SortKey) (rev : Bool) (l : List
   · exact ⟨Nat × String, inferInstance, pairLe, fun t => ((w.lab t).length, w.lab t), pairLe_preorder, rfl⟩
   · exact ⟨Nat, inferInstance, Nat.ble, fun _ => 0, natBle_preorder, rfl⟩
 
-theorem sort_key_ops_spec (w : World) (n : Nat) (s : NS) (hs : w.nss[n]? = some s) (k : SortKey) (rev : Bool) :
+theorem sort_key_ops_spec (w : World) (n : Nat) (s : NS) (hs : w.nss[n]? = some s) (k : SortKey) (rev : Bool)
+    (hk : k ≠ .label ∨ sortRefused w.lab s.taxa = false) :
     step w (.sortk n k rev) = (w.setNs n { s with taxa := sortWith w s k rev s.taxa }, .ok) ∧
     (sortWith w s k rev s.taxa).Perm s.taxa := by
   refine ⟨?_, sortWith_perm w s k rev s.taxa⟩
-  rw [step_ns (n := n) rfl rfl, hs]; rfl
+  rw [step_ns (n := n) rfl rfl, hs]
+  simp only [stepNs]
+  rw [if_neg]
+  rintro ⟨h1, h2⟩
+  rcases hk with h | h
+  · exact h h1
+  · rw [h] at h2; cases h2
 
 theorem sort_default_key (w : World) (n : Nat) (rev : Bool) : step w (.sort n rev) = step w (.sortk n .label rev) := by
   rw [step_ns (n := n) rfl rfl, step_ns (n := n) rfl rfl]
   cases w.nss[n]? with
   | none => rfl
-  | some s => simp only [stepNs, sortWith, sortBy_eq_sortByK]
+  | some s => simp only [stepNs, sortWith, sortBy_eq_sortByK, true_and]
 
 theorem sort_const_identity (w : World) (s : NS) (rev : Bool) (l : List Nat) : sortWith w s .const rev l = l := by
   simp only [sortWith]
@@ -1582,5 +1593,140 @@ theorem kernel_btl_loop (a2t : Map) (m idx : Nat) :
       | some t => cases btl a2t (m / 2) (idx + 1) <;> rfl
     · simp [h0, h1]
 
+
+/-! ## wave 2: bulk additions with repeated mentions -/
+
+/-- `add_taxa` with an iterable that mentions taxa more than once (the pooled leaf taxa of two trees that share taxa), on a mutable
+namespace: the old members stay in place with their bits; the newcomers are exactly the mentioned non-members, each listed ONCE
+(the member list stays duplicate-free), in order of first mention, and the `k`-th newcomer gets the one bit `count + k`; the counter
+grows by the number of newcomers, not of mentions -/
+theorem add_taxa_repeats_spec (w : World) (hw : WInv w) (n : Nat) (s : NS) (hs : w.nss[n]? = some s) (ts : List Nat)
+    (hts : ∀ t ∈ ts, t < w.labels.length) (hm : s.mutable_ = true) :
+    ∃ s' new, step w (.addTaxa n ts) = (w.setNs n s', .ok) ∧ s'.taxa = s.taxa ++ new ∧ s'.taxa.Nodup ∧
+      (∀ t, t ∈ new ↔ t ∈ ts ∧ t ∉ s.taxa) ∧ s'.count = s.count + new.length ∧
+      (∀ k t, new[k]? = some t → s'.t2a.get t = some (s.count + k)) ∧
+      (∀ x i, s.t2a.get x = some i → s'.t2a.get x = some i) := by
+  have hi := hw.ns s (List.mem_of_getElem? hs)
+  have hr : (Op.addTaxa n ts).refsOk w.labels.length = true := by
+    simp only [Op.refsOk, List.all_eq_true, decide_eq_true_eq]; exact hts
+  obtain ⟨new, h1, h2, h3, h4, h5, h6⟩ := addTaxa_new ts s hi hm
+  obtain ⟨a, _, c, _, _⟩ := addTaxa_mutable ts s hi hm
+  have hinv : Inv (s.addTaxa ts).1 := by
+    have := winv_step hw (.addTaxa n ts)
+    have hstep : step w (.addTaxa n ts) = (w.setNs n (s.addTaxa ts).1, .ok) := by
+      rw [step_ns hr rfl, hs]; simp only [stepNs]
+      rcases hx : s.addTaxa ts with ⟨s', r⟩
+      rw [hx] at a; simp only at a; subst a; rfl
+    rw [hstep] at this
+    have hlt : n < w.nss.length := (List.getElem?_eq_some_iff.1 hs).1
+    exact this.ns _ (by simp [World.setNs]; exact List.mem_of_getElem? (by simp [hlt] : (w.nss.set n (s.addTaxa ts).1)[n]? = some _))
+  refine ⟨(s.addTaxa ts).1, new, ?_, h1, hinv.nodup, ?_, h5, h6, c⟩
+  · rw [step_ns hr rfl, hs]; simp only [stepNs]
+    rcases hx : s.addTaxa ts with ⟨s', r⟩
+    rw [hx] at a; simp only at a; subst a; rfl
+  · intro t
+    constructor
+    · exact h3 t
+    · rintro ⟨ht, hn⟩
+      rcases h4 t ht with h | h
+      · exact absurd h hn
+      · exact h
+
+/-- mentioning a taxon twice in a row is mentioning it once — for every namespace, mutable or not, member or not -/
+theorem add_taxa_mention_twice (w : World) (n t : Nat) (r : List Nat) :
+    step w (.addTaxa n (t :: t :: r)) = step w (.addTaxa n (t :: r)) := by
+  have hr : (Op.addTaxa n (t :: t :: r)).refsOk w.labels.length = (Op.addTaxa n (t :: r)).refsOk w.labels.length := by
+    simp [Op.refsOk]
+  cases h : (Op.addTaxa n (t :: r)).refsOk w.labels.length with
+  | false => rw [step_bad h, step_bad (hr ▸ h)]
+  | true =>
+    rw [step_ns (hr ▸ h) rfl, step_ns h rfl]
+    cases w.nss[n]? with
+    | none => rfl
+    | some s => simp only [stepNs, addTaxa_twice]
+
+/-- two fresh `Taxon` objects pooled as `[c, d, c, a, d]` into the namespace a, b: members a, b, c, d — counter 4, bits 2 and 3 -/
+example : (exec World.init [.mkns false [.lab "a", .lab "b"], .mk "c", .mk "d", .addTaxa 0 [2, 3, 2, 0, 3]]).nss.map
+    (fun s => (s.taxa, s.count, s.t2a.get 2, s.t2a.get 3)) = [([0, 1, 2, 3], 4, some 2, some 3)] := by decide
+
+/-! ## wave 2: taxa without a label inside histories -/
+
+/-- taxa without a label inside histories.  In the label store of the model the empty string stands for "no label" (`Taxon()`,
+`new_taxon(None)`, `taxon.label = None`; labels that ARE the empty string are outside the scope).  For every non-empty query and
+either case setting such a member matches nothing — exactly what the optional-label kernel says about the label `None` — so every
+lookup operation (`findall`, and with it `get_taxon`, `has_taxon_label`, `get_taxa`, `require_taxon`, removal by label, which all
+run the same scan) passes it over; and it is rendered as the empty token, as `escape_nexus_token(None)` is -/
+theorem unlabelled_member_spec (w : World) (n : Nat) (s : NS) (hs : w.nss[n]? = some s) (c : Option Bool) (cs ps qu : Bool)
+    (q : String) (hq : q ≠ "") :
+    (∀ t, w.lab t = "" → labelMatches w.lab cs q t = false ∧ labelMatches w.lab cs q t = labelMatchesO cs (some q) none) ∧
+    (∃ L, step w (.find n c q) = (w, .ids L) ∧ ∀ t ∈ L, w.lab t ≠ "") ∧
+    (∀ t, w.lab t = "" → s.lookupFirst w.lab c q ≠ some t) ∧
+    escapeToken ps qu "" = "" := by
+  have key : ∀ cs' t, w.lab t = "" → labelMatches w.lab cs' q t = false := by
+    intro cs' t ht
+    cases hm : labelMatches w.lab cs' q t with
+    | false => rfl
+    | true =>
+      have := (labelMatches_iff w.lab cs' q t).1 hm
+      cases cs' with
+      | true => simp at this; exact absurd (this.trans ht) hq
+      | false =>
+        simp at this
+        rw [ht] at this
+        have e : pyLower "" = "" := by decide
+        exact absurd (this.trans e) (pyLower_ne_empty q hq)
+  refine ⟨?_, ?_, ?_, by cases ps <;> cases qu <;> decide⟩
+  · intro t ht
+    refine ⟨key cs t ht, ?_⟩
+    rw [key cs t ht]; cases cs <;> simp [labelMatchesO]
+  · have hl := lookup_spec s w.lab c q
+    refine ⟨s.lookupAll w.lab c q, by rw [step_at rfl rfl hs]; rfl, ?_⟩
+    intro t ht e
+    rw [hl.1] at ht
+    have := (List.mem_filter.1 ht).2
+    rw [key _ t e] at this; cases this
+  · intro t ht e
+    rw [(lookup_spec s w.lab c q).2] at e
+    have := List.find?_some e
+    rw [key _ t ht] at this; cases this
+
+set_option maxRecDepth 100000 in
+/-- members "none", (no label), "None": the unlabelled one is not found under "none"; it keeps bit 1 -/
+example : (step (exec World.init [.mkns false [.lab "none", .lab "", .lab "None"]]) (.find 0 none "none")).2 matches .ids [0, 2] := by
+  decide
+
+/-! ## wave 2: a sort that `list.sort` refuses -/
+
+/-- a sort by label that `list.sort` refuses: exactly when the namespace has two or more members and one of them has no label.
+Then `sort` (and `sort(key=label)`) answers `TypeError`; the model's own `sort` leaves everything as it is, and `sortx` — the same
+refusal together with the order CPython left behind, which may be any rearrangement of the members — changes the member order only:
+index maps (every bit), memo, counter and flags stay; anything that is no rearrangement, or a `sortx` on a namespace whose sort
+would not be refused, is not an operation -/
+theorem sort_refused_spec (w : World) (n : Nat) (s : NS) (hs : w.nss[n]? = some s) (rev : Bool) (order : List Nat) :
+    (sortRefused w.lab s.taxa = true ↔ 2 ≤ s.taxa.length ∧ ∃ t ∈ s.taxa, w.lab t = "") ∧
+    (sortRefused w.lab s.taxa = true →
+      step w (.sort n rev) = (w, .err .typeError) ∧ step w (.sortk n .label rev) = (w, .err .typeError) ∧
+      (order.Perm s.taxa → step w (.sortx n order) = (w.setNs n { s with taxa := order }, .err .typeError)) ∧
+      (¬ order.Perm s.taxa → step w (.sortx n order) = (w, .bad))) ∧
+    (sortRefused w.lab s.taxa = false → step w (.sortx n order) = (w, .bad)) := by
+  refine ⟨?_, ?_, ?_⟩
+  · simp [sortRefused]
+  · intro h
+    refine ⟨?_, ?_, ?_, ?_⟩
+    · rw [step_at rfl rfl hs]; simp [stepNs, h]
+    · rw [step_at rfl rfl hs]; simp [stepNs, h]
+    · intro hp; rw [step_at rfl rfl hs]; simp [stepNs, h, List.isPerm_iff.2 hp]
+    · intro hp
+      have : order.isPerm s.taxa = false := by
+        cases hx : order.isPerm s.taxa with
+        | false => rfl
+        | true => exact absurd (List.isPerm_iff.1 hx) hp
+      rw [step_at rfl rfl hs]; simp [stepNs, this]
+  · intro h; rw [step_at rfl rfl hs]; simp [stepNs, h]
+
+/-- members B, A, (no label): the sort is refused; told the order A, B, (no label), the model keeps every bit -/
+example : (step (exec World.init [.mkns false [.lab "B", .lab "A", .lab ""]]) (.sort 0 false)).2 matches .err .typeError := by decide
+example : (step (exec World.init [.mkns false [.lab "B", .lab "A", .lab ""]]) (.sortx 0 [1, 0, 2])).1.nss.map
+    (fun s => (s.taxa, s.t2a.get 0, s.t2a.get 1, s.count)) = [([1, 0, 2], some 0, some 1, 3)] := by decide
 
 end DendroModel.C10
